@@ -32,7 +32,7 @@ def gen_script(rng, stage=None, maxlen=6):
         outs = [0]
     else:
         cfg = "stage=%s cap=%d fn=%d" % (st, rng.choice([0, 0, 1, 2, 5]), rng.choice([2, 3]))
-        if st in ("Map", "FMap", "StdErrMap") and rng.random() < 0.5:
+        if st in ("Map", "FMap", "StdErrMap", "Partition", "Filter", "TakeWhile", "ForEach") and rng.random() < (0.5 if st in ("Map", "FMap", "StdErrMap") else 0.25):
             # failing elements under Lift / Try: the uncancelled result then skips / stops at them
             cfg += " mode=%s fail=%s" % (rng.choice(["lift", "try"]), ",".join(str(x) for x in xs if rng.random() < 0.3))
         if st == "Take":
@@ -57,6 +57,19 @@ def gen_script(rng, stage=None, maxlen=6):
         cfg += " pre=1"
         body = ["x"] + [m for m in body if m != "x"]
     return cfg + " | " + " ".join(body + tail)
+
+
+def gen_pred_fail(rng):
+    """a stage whose PREDICATE / visitor fails on some elements, nobody cancels: the stage must still consume its input,
+    deliver, and close"""
+    st = rng.choice(["Filter", "Partition", "Partition", "TakeWhile", "ForEach"])
+    n = rng.randrange(1, 7)
+    xs = rng.sample(range(1, 40), n)
+    fail = [x for x in xs if rng.random() < 0.4] or [rng.choice(xs)]
+    cfg = "stage=%s cap=%d fn=%d mode=%s fail=%s" % (st, rng.choice([0, 1, 2, 5]), rng.choice([2, 3]), rng.choice(["lift", "try"]), ",".join(map(str, fail)))
+    outs = outs_of({"stage": st})
+    body = ls.interleave(rng, [["s%d" % x for x in xs] + ["c0"], ls.drain_moves(outs, rng.randrange(0, n + 2))])
+    return cfg + " | " + " ".join(body + ls.drain_moves(outs, 2 * n + 3) + ["z"])
 
 
 def exhaustive():
@@ -106,6 +119,23 @@ def evaluate(script, tr):
             first = next((i for i, x in enumerate(xs) if x in fail), None)
             good = xs if first is None else xs[:first]
         want = C05.spec(dict(cfg, stage=base), good)
+        if base in ("Filter", "Partition", "TakeWhile", "ForEach") and fail:
+            # a failing PREDICATE (the harness returns (true, err)) is no failing stage: Filter drops the element, Partition
+            # sends it right, TakeWhile ends the prefix there, ForEach ignores what its function returns
+            if base == "Filter":
+                want = {0: [x for x in xs if x not in fail and ls.pred(int(cfg.get("fn", 2)), x)]}
+            elif base == "Partition":
+                fnp = int(cfg.get("fn", 2))
+                want = {0: [x for x in xs if x not in fail and ls.pred(fnp, x)], 1: [x for x in xs if x in fail or not ls.pred(fnp, x)]}
+            elif base == "TakeWhile":
+                r = []
+                for x in xs:
+                    if x in fail or not ls.pred(int(cfg.get("fn", 2)), x):
+                        break
+                    r.append(x)
+                want = {0: r}
+            else:
+                want = C05.spec(dict(cfg, stage=base), xs)
         if base in ("Map", "FMap") and st != "StdErrMap":
             errs = [x for x in xs if x in fail] if mode == "try" else ([x for x in xs if x in fail][:1] if mode == "lift" else [])
             if not is_prefix(tr.errors(1), errs):
@@ -136,6 +166,23 @@ def evaluate(script, tr):
                 vs.append(vlib.Violation("impl", "%s: %d goroutine(s) alive after cancel with the inputs closed" % (st, n), case=script, key=dict(key, **{"class": "leak-after-cancel"})))
             elif allclosed and all(k in drained for k in outs_of(cfg)) and n != 0:
                 vs.append(vlib.Violation("impl", "%s: %d goroutine(s) alive after close and drain" % (st, n), case=script, key=dict(key, **{"class": "leak"})))
+    # "stages always close": nobody cancelled, every input was closed, and the script ends with more receive rounds over all
+    # outputs than there are elements — every output has been seen closed by then
+    tailr, seen = 0, set()
+    for mv, res, _ in reversed(tr.steps):
+        if mv == "z":
+            continue
+        if mv[0] != "r":
+            break
+        seen.add(int(mv[1:]))
+        tailr += 1
+    nsent = sum(len(v) for v in tr.sent.values())
+    if (cancelled_at is None and len(closed_at) == nin and tr.steps and tr.steps[-1][0] == "z" and seen >= set(outs_of(cfg))
+            and tailr >= len(outs_of(cfg)) * (2 * nsent + 3)):
+        still = [k for k in outs_of(cfg) if k not in tr.closed]
+        if still:
+            vs.append(vlib.Violation("impl", "%s: output(s) %s not closed although every input was closed, nobody cancelled and the outputs were drained (%d receive rounds)"
+                                     % (st, still, tailr // len(outs_of(cfg))), case=script, expected="closed", got="open", key=dict(key, **{"class": "not-closed"})))
     return vs
 
 
@@ -161,7 +208,7 @@ def run(ctx):
             return
     else:
         n = 5000 if ctx.thorough() else 600
-        scripts = [gen_script(ctx.rng) for _ in range(n)]
+        scripts = [gen_script(ctx.rng) for _ in range(n)] + [gen_pred_fail(ctx.rng) for _ in range(n // 12)]
         if ctx.thorough():
             scripts += exhaustive()
         if ctx.broken:
